@@ -2,6 +2,7 @@ import ReplicatProofs.Lemmas.SigV4Wire
 import ReplicatProofs.Lemmas.SigV4Payload
 import ReplicatProofs.Lemmas.SigV4Dots
 import ReplicatProofs.Lemmas.SigV4Redirect
+import ReplicatProofs.Lemmas.SigV4Reads
 /-!
 # C16 — every request sent to an S3 service is correctly signed
 
@@ -225,6 +226,117 @@ theorem retry_without_rewind_witness :
     as.map (fun a => (a.put.declaredDigest, a.put.declaredLength, a.put.body)) = [([1, 2, 3], 3, [1, 2, 3]), ([1, 2, 3], 3, [3])] := by
   decide
 
+/-! ## streams whose `read(n)` returns fewer than `n` bytes (read schedules)
+
+`payload_hash_matches_stream` and `retried_stream_payload_matches` describe the two read loops of `upload_stream` by what they are
+meant to compute (`streamDigest`: the hash of position … EOF; `streamBody`: the same bytes).  The caller's stream decides how much
+each `read(n)` returns — `io.RawIOBase.read`: UP TO `n` bytes, empty only at the end (raw / unbuffered streams, pipes, sockets,
+network file systems, wrappers that cap the transfer size).  The theorems below quantify over EVERY such behaviour (a schedule of
+positive caps for the successive calls, `CapsOk`) and are discharged from the generated stop conditions of the two loops
+(`Gen.s3DigestStopRule`, `Gen.s3BodyStopRule` — tools/sections/16_s3reads.py): they stop compiling when a loop no longer runs to
+the first EMPTY read. -/
+
+/-- `_get_stream_hexdigest` under every read schedule: the digest of everything from the position to the end, stream rewound —
+i.e. `streamDigest`.  Needs the loop to stop at the empty read only (generated) and a positive read size (generated). -/
+theorem stream_digest_every_schedule (c : Crypto) (s : Stream) (caps : List Nat) (hc : CapsOk caps) :
+    streamDigestSchedWith digestStopRule Gen.s3DigestReadSize Gen.s3StreamRewindTo c caps s = streamDigest c s := by
+  have hr : digestStopRule = .emptyRead := rfl
+  have hn : 0 < Gen.s3DigestReadSize := by decide
+  have hs : Gen.s3StreamRewindTo = some 0 := rfl
+  unfold streamDigestSchedWith streamDigest
+  rw [hr, streamReads_emptyRead _ hn caps hc, hs]
+
+/-- the body iterator under every read schedule: the bytes from the position to the end, whatever the parts are — i.e. `streamBody`
+(so every statement of `retried_stream_payload_matches` about an attempt's body holds for every schedule of every attempt) -/
+theorem stream_body_every_schedule (chunk : Nat) (hc : 0 < chunk) (s : Stream) (caps : List Nat) (hcaps : CapsOk caps) :
+    (streamPartsSchedWith bodyStopRule chunk caps s).flatten = streamBody chunk s := by
+  have hr : bodyStopRule = .emptyRead := rfl
+  unfold streamPartsSchedWith
+  rw [flatten_filter_nonempty, hr, streamReads_emptyRead _ hc caps hcaps, streamBody_eq chunk hc]
+
+/-- the payload clause for every stream behaviour the file protocol allows: whatever the digest loop and the body iterator are
+handed by the successive `read` calls (two independent schedules), the request declares the hash of exactly the body it sends, the
+body is the whole content, and the declared length is right when the caller's `length` is -/
+theorem payload_hash_matches_stream_every_schedule (c : Crypto) (data : Bytes) (length chunk : Nat) (hc : 0 < chunk)
+    (dcaps bcaps : List Nat) (hd : CapsOk dcaps) (hb : CapsOk bcaps) :
+    let p := uploadStreamSched c ⟨data, 0⟩ length chunk dcaps bcaps
+    p.body = data ∧ p.declaredDigest = c.sha p.body ∧ (length = data.length → p.declaredLength = p.body.length) ∧
+      p.declaredDigest = (uploadStream c ⟨data, 0⟩ length chunk).declaredDigest := by
+  have hdig := stream_digest_every_schedule c ⟨data, 0⟩ dcaps hd
+  have hs : Gen.s3StreamRewindTo = some 0 := rfl
+  have hbody : (uploadStreamSched c ⟨data, 0⟩ length chunk dcaps bcaps).body = data := by
+    unfold uploadStreamSched uploadStreamSchedWith
+    rw [hdig]
+    show (streamPartsSchedWith bodyStopRule chunk bcaps _).flatten = data
+    rw [stream_body_every_schedule chunk hc _ bcaps hb, streamBody_eq chunk hc]
+    simp [streamDigest, hs]
+  have hdd : (uploadStreamSched c ⟨data, 0⟩ length chunk dcaps bcaps).declaredDigest = c.sha data := by
+    unfold uploadStreamSched uploadStreamSchedWith
+    rw [hdig]
+    simp [streamDigest]
+  refine ⟨hbody, ?_, ?_, ?_⟩
+  · rw [hbody]; exact hdd
+  · intro hl; rw [hbody]; exact hl
+  · rw [hdd]; simp [uploadStream, streamDigest]
+
+/-- what the service received of a broken attempt is a prefix of the content, under every schedule and for every number of parts
+the connection had pulled -/
+theorem broken_attempt_prefix_every_schedule (chunk : Nat) (hc : 0 < chunk) (data : Bytes) (caps : List Nat) (hcaps : CapsOk caps)
+    (k : Nat) : ((streamPartsSchedWith bodyStopRule chunk caps ⟨data, 0⟩).take k).flatten <+: data := by
+  have h := take_flatten_prefix k (streamPartsSchedWith bodyStopRule chunk caps ⟨data, 0⟩)
+  rw [stream_body_every_schedule chunk hc _ caps hcaps, streamBody_eq chunk hc] at h
+  exact h
+
+/-- the digest loop ends with the read that found the end: it always issues one `read` more than it hashes (no read is skipped) -/
+theorem digest_loop_ends_with_the_empty_read (s : Stream) (caps : List Nat) (hc : CapsOk caps) :
+    (streamReads digestStopRule Gen.s3DigestReadSize caps s).getLast? = some [] := by
+  have hr : digestStopRule = .emptyRead := rfl
+  have hn : 0 < Gen.s3DigestReadSize := by decide
+  rw [hr]
+  unfold streamReads
+  exact readLoop_emptyRead_last _ hn _ caps _ hc (by simp [List.length_drop]; omega)
+
+/-- why the stop condition matters — a digest loop that takes a partially filled read for the end of the stream ("no need for one
+more empty read"): as soon as ONE read before the end is shorter than requested (`k < n`, `k < data.length`), the request declares
+and signs the hash of the first `k` bytes only, while the body iterator (empty-read rule) still sends the whole content under the
+full content-length — for every content, read size, later schedule and chunk size -/
+theorem short_read_stop_declares_prefix (c : Crypto) (data : Bytes) (length chunk n k : Nat) (hc : 0 < chunk) (hk : k < n)
+    (hl : k < data.length) (dcaps bcaps : List Nat) (hb : CapsOk bcaps) :
+    let p := uploadStreamSchedWith .shortRead .emptyRead n (some 0) c ⟨data, 0⟩ length chunk (k :: dcaps) bcaps
+    p.declaredDigest = c.sha (data.take k) ∧ p.body = data ∧ data.take k ≠ data := by
+  refine ⟨?_, ?_, ?_⟩
+  · simp only [uploadStreamSchedWith, streamDigestSchedWith, streamReads, List.drop_zero]
+    rw [readLoop_shortRead_first_short n k _ dcaps data (by omega) hk]
+  · simp only [uploadStreamSchedWith, streamDigestSchedWith, streamPartsSchedWith]
+    rw [flatten_filter_nonempty, streamReads_emptyRead _ hc bcaps hb]
+    rfl
+  · intro h
+    have := congrArg List.length h
+    rw [List.length_take] at this
+    omega
+
+/-- the smallest instance: content `[1, 2, 3]`, the loop asks for 2 bytes, the first read hands out 1 -/
+theorem short_read_stop_witness :
+    let p := uploadStreamSchedWith .shortRead .emptyRead 2 (some 0) idCrypto ⟨[1, 2, 3], 0⟩ 3 2 [1] []
+    (p.declaredDigest, p.declaredLength, p.body) = ([1], 3, [1, 2, 3]) := by
+  decide
+
+/-- streams that fill every request (`io.BytesIO`, buffered files — all that replicat itself passes, all the unit tests use): both
+stop rules hash the whole content, for every size (exact multiples of the read size included) — the two rules differ ONLY on
+streams with short reads -/
+theorem filled_streams_hide_the_stop_rule (c : Crypto) (data : Bytes) (n : Nat) (hn : 0 < n) (caps : List Nat)
+    (hfull : ∀ k ∈ caps, n ≤ k) (rule : StopRule) :
+    (streamDigestSchedWith rule n (some 0) c caps ⟨data, 0⟩).1 = c.sha data := by
+  have hok : CapsOk caps := fun k hk => Nat.lt_of_lt_of_le hn (hfull k hk)
+  cases rule with
+  | emptyRead =>
+    simp only [streamDigestSchedWith]
+    rw [streamReads_emptyRead _ hn caps hok]
+    rfl
+  | shortRead =>
+    simp only [streamDigestSchedWith, streamReads, List.drop_zero]
+    rw [readLoop_shortRead_filled n hn _ caps data hfull (by omega)]
+
 /-! ## every request on the wire comes from `_prepare_request` (replies that could make the HTTP client emit requests itself)
 
 The theorems above speak about `toWire c i`, the request built from ONE signing.  That these are all the requests on the wire is a
@@ -305,6 +417,13 @@ example : WellFormed (demo [47, 98, 47, 120] [104] [104, 116, 116, 112] (listQue
 
 example : (uploadStreamRetried idCrypto ⟨[1, 2, 3], 0⟩ 3 1 [⟨.transport, 2⟩, ⟨.status, 9⟩]).map (fun a => (a.put.body, a.sent)) =
     [([1, 2, 3], [1, 2]), ([1, 2, 3], [1, 2, 3]), ([1, 2, 3], [1, 2, 3])] := by decide
+
+example : CapsOk [1, 3, 2] ∧ (streamReads .emptyRead 2 [1, 3, 2] ⟨[1, 2, 3, 4, 5, 6], 0⟩) = [[1], [2, 3], [4, 5], [6], []] ∧
+    (streamReads .shortRead 2 [1, 3, 2] ⟨[1, 2, 3, 4, 5, 6], 0⟩) = [[1]] ∧
+    (streamReads .shortRead 2 [2, 3, 2] ⟨[1, 2, 3, 4], 0⟩) = [[1, 2], [3, 4], []] := by
+  refine ⟨fun k hk => ?_, by decide, by decide, by decide⟩
+  simp at hk
+  omega
 
 example : clientPath [0x61, 0x20, 0xC3, 0xBC, 0x2F, 0x7E] = [0x61, 0x25, 0x32, 0x30, 0x25, 0x43, 0x33, 0x25, 0x42, 0x43, 0x2F, 0x7E] := by decide
 
